@@ -86,6 +86,15 @@ class FuncRef:
     def __repr__(self):
         return f"<func {self.mod.name if self.mod else '?'}::{self.qual}>"
 
+    def __call__(self, *args, **kwargs):
+        """Allows python stubs (used as abstractions in rules) to call back into interpreted code."""
+        if not _CURRENT:
+            raise OutsideFragment("interpreted function called outside an interpreter")
+        return _CURRENT[-1].apply(self, list(args), dict(kwargs))
+
+
+_CURRENT = []
+
 
 class ClassRef:
     def __init__(self, mod, node):
@@ -255,6 +264,7 @@ class Interp:
         self.ite_count = 0
         self.env_log = {}             # qualname -> last Env of that function (closure extraction)
         self.np_overrides = dict(np_overrides or {})
+        self._local_modconst = {}
 
     # ------------------------------------------------------------------ entry points
     def call_function(self, modname, qualname, args=(), kwargs=None):
@@ -289,7 +299,7 @@ class Interp:
             key = (m.name, name)
             if key in self.overrides:
                 return self.overrides[key]
-            cache = _MODCONST_CACHE
+            cache = _MODCONST_CACHE if not self.overrides else self._local_modconst
             if key in cache:
                 return cache[key]
             env = Env(m)
@@ -498,11 +508,13 @@ class Interp:
             raise OutsideFragment(f"unexpected keyword arguments {sorted(kwargs)} for {fn.qual}")
         self.depth += 1
         self.env_log[fn.qual] = env
+        _CURRENT.append(self)
         try:
             if isinstance(node, ast.Lambda):
                 return self.eval(node.body, env)
             return self.exec_function_body(node.body, env)
         finally:
+            _CURRENT.pop()
             self.depth -= 1
 
     def exec_function_body(self, body, env):
@@ -829,8 +841,10 @@ class Interp:
         elif isinstance(st, ast.Try):
             try:
                 self.exec_block(st.body, env)
-            except KpeRaise:
+            except KpeRaise as kexc:
                 if st.handlers:
+                    if st.handlers[0].name:
+                        env.vars[st.handlers[0].name] = Opaque(f"exception({kexc.text})")
                     self.exec_block(st.handlers[0].body, env)
                 else:
                     raise
@@ -941,7 +955,15 @@ class Interp:
     # ------------------------------------------------------------------ expressions
     def eval_index(self, node, env):
         if isinstance(node, ast.Tuple):
-            return tuple(self.eval_index(e, env) for e in node.elts)
+            out = []
+            for e in node.elts:
+                v = self.eval_index(e, env)
+                if isinstance(v, tuple) and not isinstance(e, ast.Tuple):
+                    v = list(v)
+                elif isinstance(e, ast.Tuple):
+                    v = [as_int(x) for x in v]
+                out.append(v)
+            return tuple(out)
         if isinstance(node, ast.Slice):
             lo = None if node.lower is None else as_int(self.eval(node.lower, env), "slice bound")
             hi = None if node.upper is None else as_int(self.eval(node.upper, env), "slice bound")
@@ -959,7 +981,11 @@ class Interp:
                 return [as_int(x) for x in v]
             return v
         if isinstance(v, tuple):
-            return tuple(x if (isinstance(x, slice) or x is None or x is Ellipsis) else as_int(x) for x in v)
+            return tuple(x if (isinstance(x, slice) or x is None or x is Ellipsis) else
+                         ([as_int(e) for e in x] if isinstance(x, (list, tuple)) else
+                          (x if isinstance(x, np.ndarray) and x.dtype != object else
+                           (np.array([as_int(e) for e in x.ravel()]).reshape(x.shape) if isinstance(x, np.ndarray) else as_int(x))))
+                         for x in v)
         if is_static_int(v) or isinstance(v, sp.Rational):
             return as_int(v)
         return v
